@@ -167,6 +167,15 @@ func init() {
 	for _, id := range []string{"C22", "C05", "C02", "C01"} {
 		add(id, txAssumptions, tier("quick", mint)...)
 	}
+	burn := HSpec{Pkg: txPkg, Func: "VerifHarness_BurnToken_Deliver", Configs: []map[string]int64{
+		cfg("coin", 3, "pool10", 1, "lp10", 1, "concretePool", 1, "concretePrices", 1, "signerB", 1),
+		cfg("coin", 2, "concretePrices", 1, "signerB", 0),
+		cfg("coin", 2, "concretePrices", 1, "signerB", 1),
+		cfg("coin", 1, "concretePrices", 1, "signerB", 0),
+	}, Bounds: "BurnToken of the token, the bancor coin or the pool token by the ticker owner or another holder; amount symbolic"}
+	for _, id := range []string{"C22", "C05", "C02", "C01", "C03", "C06", "C07"} {
+		add(id, txAssumptions, tier("quick", burn)...)
+	}
 
 	// ---------------------------------------------------------- blocks
 	byz := HSpec{Pkg: minterPkg, Func: "VerifHarness_Block_ByzantineAndMaturity", Configs: []map[string]int64{cfg("evidence", 1), cfg("evidence", 0)},
